@@ -211,3 +211,71 @@ def judge_size(sess, res):
                                   detail='enddef returned %d; the size rule of format %d says %s for variables (type, shape) %s'
                                   % (rc, a['fmt'], 'accept' if ok else 'NC_EVARSIZE', a['sizes'])))
     return fails
+
+
+def gen_wide_session(rng):
+    """CDF-5 variables with a dimension longer than 2^31-1 (the hand-built subarray file type path):
+    non-contiguous blocks straddling columns 2^31 and 2^32, read back through other access shapes"""
+    sess = Session(rng, np_=rng.choice([1, 1, 2]))
+    f = sess.f
+    fmt = 5
+    W = rng.choice([2**31 + 8, 2**32 + 16, 2**32 + 16])
+    K = rng.choice([2, 3])
+    xt = rng.choice([1, 3, 4])
+    three = rng.chance(1, 3)
+    sess.emit('* create %d %d 1' % (f, fmt), kind='create')
+    dims = [K, W] + ([2] if three else [])
+    order = [0, 1, 2] if three else [0, 1]
+    if three and rng.chance(1, 2):
+        order = [0, 2, 1]; 
+    for i, l in enumerate(dims):
+        sess.emit('* def_dim %d %s %d' % (f, hx('d%d' % i), l))
+    if rng.chance(1, 2):
+        sess.emit('* def_var %d %s 4 0 ' % (f, hx('s')))
+        vid0 = 1
+    else:
+        vid0 = 0
+    ids = order
+    shape = [dims[i] for i in ids]
+    sess.emit('* def_var %d %s %d %d %s' % (f, hx('w'), xt, len(ids), fmt_list(ids)))
+    sess.emit('* enddef %d' % f, kind='enddef')
+    sess.emit('* inq %d' % f, kind='inq')
+    v = Var(vid0, 'w', xt, ids, shape, False)
+    class S_: pass
+    s = S_(); s.vars = [None] * vid0 + [v]; s.fmt = fmt; s.dims = [('d%d' % i, l) for i, l in enumerate(dims)]
+    sess.s = s
+    wpos = ids.index(1)
+    for _ in range(rng.range(2, 4)):
+        c0 = rng.choice([2**31 - 2, 2**31 - 1, 2**32 - 2, W - 4, 5]) 
+        c0 = min(c0, W - 4)
+        start = [0] * v.nd; count = [1] * v.nd
+        start[0] = rng.below(K - 1); count[0] = 2
+        start[wpos] = c0; count[wpos] = rng.range(2, 4)
+        if three:
+            other = [i for i in range(v.nd) if i not in (0, wpos)][0]
+            start[other] = 0; count[other] = rng.choice([1, 2])
+        stride = [1] * v.nd
+        if sess.np == 1:
+            sess.one_access('put', 'c', v, start, count, stride, form=rng.choice(['vara', 'vars']))
+        else:
+            w = rng.below(sess.np)
+            sess.emit('{')
+            for r in range(sess.np):
+                if r == w:
+                    sess.one_access('put', 'c', v, start, count, stride, who=str(r), form='vara')
+                else:
+                    sess.one_access('put', 'c', v, [0] * v.nd, [0] * v.nd, stride, who=str(r), form='vara')
+            sess.emit('}')
+        # other shapes: row by row, and single cells
+        for r0 in range(count[0]):
+            st = list(start); st[0] = start[0] + r0
+            cn = list(count); cn[0] = 1
+            sess.one_access('get', 'c', v, st, cn, stride, forget=True, form='vara')
+        st = [a + b - 1 for a, b in zip(start, count)]
+        sess.one_access('get', 'c', v, st, [1] * v.nd, stride, forget=True, form='var1')
+        sess.one_access('get', 'c', v, start, count, stride, forget=True, form='vara')
+    sess.emit('* close %d' % f)
+    sess.emit('* open %d 0' % f, kind='open', end_overflow=False)
+    sess.emit('* inq %d' % f, kind='inq')
+    sess.emit('* close %d' % f)
+    return sess
